@@ -196,6 +196,8 @@ def templates(tier, seed):
         for a, b in ((0, 1), (1, 2)):
             T.append((f"jmpfwd:{g}@{a}{b}", f"set Q0 {a}\nset Q1 {b}\n{gl}\njmp OVER\nx Q0\nOVER:\ny Q1\n{gl}\n"))
             T.append((f"jmploop:{g}@{a}{b}", f"set Q0 {a}\nset Q1 {b}\n{gl}\nset R0 0\nHEAD:\nbeq R0 2 END\nt Q1\n{gl}\nadd R0 R0 1\njmp HEAD\nEND:\nz Q0\n"))
+    # many carbon-carbon gates in one subroutine (scratch registers must be reusable: there are only 16 Q registers)
+    T.append(("many_cc:16", "set Q0 1\nset Q1 2\n" + "".join(("cnot Q0 Q1\n" if i % 3 else "cphase Q1 Q0\n") for i in range(16)) + "h Q0\n"))
     # a loop whose head is the very first instruction of the subroutine (branch / jump target 0), driven by measurement outcomes
     for v in range(NQ):
         T.append((f"loop0:h@{v}", f"TOP:\nset Q0 {v}\nh Q0\nmeas Q0 M0\nbnz M0 TOP\nset Q0 {v}\nx Q0\n"))
